@@ -788,64 +788,67 @@ var tails = [][]byte{{0x19, 0x01}, {0x41}, {0x81}, {0x18}, {0xa1, 0x00}, {0x5a, 
 
 var setargValues = []uint64{0, 1 << 31, 1 << 32, 1 << 62, 1<<63 - 1, 1 << 63}
 
-func TestPropGenerated(t *testing.T) {
-	genProp.Rapid(t, func(t *rapid.T) GenCase {
-		maxDepth := rapid.IntRange(1, 4).Draw(t, "maxDepth")
-		n := rapid.SampledFrom([]int{1, 1, 2, 3}).Draw(t, "nitems")
-		var base []byte
-		for i := 0; i < n; i++ {
-			base = append(base, genItem(t, 1, maxDepth)...)
+func TestPropGenerated(t *testing.T) { genProp.Rapid(t, genPropGenerated) }
+
+// TestConcGenerated: batches of cases evaluated at the same time on separate goroutines (vh.Prop.Concurrent).
+func TestConcGenerated(t *testing.T) { genProp.Concurrent(t, genPropGenerated, 8, 3) }
+
+func genPropGenerated(t *rapid.T) GenCase {
+	maxDepth := rapid.IntRange(1, 4).Draw(t, "maxDepth")
+	n := rapid.SampledFrom([]int{1, 1, 2, 3}).Draw(t, "nitems")
+	var base []byte
+	for i := 0; i < n; i++ {
+		base = append(base, genItem(t, 1, maxDepth)...)
+	}
+	c := GenCase{Base: base, Corr: "none"}
+	corr := rapid.SampledFrom([]string{"none", "lengthen", "lengthen", "swap", "dupkey", "setarg", "setarg", "setarg", "truncate", "append"}).Draw(t, "corr")
+	switch corr {
+	case "lengthen", "swap", "dupkey", "setarg":
+		cs := candidates(base, corr)
+		if len(cs) == 0 {
+			return c
 		}
-		c := GenCase{Base: base, Corr: "none"}
-		corr := rapid.SampledFrom([]string{"none", "lengthen", "lengthen", "swap", "dupkey", "setarg", "setarg", "setarg", "truncate", "append"}).Draw(t, "corr")
+		c.Target = rapid.IntRange(0, len(cs)-1).Draw(t, "target")
+		it := cs[c.Target]
 		switch corr {
-		case "lengthen", "swap", "dupkey", "setarg":
-			cs := candidates(base, corr)
-			if len(cs) == 0 {
-				return c
-			}
-			c.Target = rapid.IntRange(0, len(cs)-1).Draw(t, "target")
-			it := cs[c.Target]
-			switch corr {
-			case "lengthen":
-				var ws []int
-				for _, w := range []int{1, 2, 4, 8} {
-					if w > refcbor.MinWidth(it.Arg) {
-						ws = append(ws, w)
-					}
-				}
-				c.Width = rapid.SampledFrom(ws).Draw(t, "width")
-			case "swap", "dupkey":
-				c.Cut = rapid.IntRange(0, len(it.Kids)/2-2).Draw(t, "entry")
-			case "setarg":
-				switch rapid.IntRange(0, 3).Draw(t, "argmode") {
-				case 0:
-					c.Arg = it.Arg + 1
-				case 1:
-					if it.Arg == 0 {
-						c.Arg = 2
-					} else {
-						c.Arg = it.Arg - 1
-					}
-				case 2:
-					c.Arg = rapid.SampledFrom(setargValues).Draw(t, "argbig")
-				default:
-					c.Arg = -uint64(rapid.IntRange(1, 9).Draw(t, "argneg")) // 2^64-9 .. 2^64-1
-				}
-				if c.Arg == it.Arg {
-					c.Arg = it.Arg + 2
+		case "lengthen":
+			var ws []int
+			for _, w := range []int{1, 2, 4, 8} {
+				if w > refcbor.MinWidth(it.Arg) {
+					ws = append(ws, w)
 				}
 			}
-			c.Corr = corr
-		case "truncate":
-			if len(base) > 0 {
-				c.Corr, c.Cut = corr, rapid.IntRange(0, len(base)-1).Draw(t, "cut")
+			c.Width = rapid.SampledFrom(ws).Draw(t, "width")
+		case "swap", "dupkey":
+			c.Cut = rapid.IntRange(0, len(it.Kids)/2-2).Draw(t, "entry")
+		case "setarg":
+			switch rapid.IntRange(0, 3).Draw(t, "argmode") {
+			case 0:
+				c.Arg = it.Arg + 1
+			case 1:
+				if it.Arg == 0 {
+					c.Arg = 2
+				} else {
+					c.Arg = it.Arg - 1
+				}
+			case 2:
+				c.Arg = rapid.SampledFrom(setargValues).Draw(t, "argbig")
+			default:
+				c.Arg = -uint64(rapid.IntRange(1, 9).Draw(t, "argneg")) // 2^64-9 .. 2^64-1
 			}
-		case "append":
-			c.Corr, c.Tail = corr, rapid.SampledFrom(tails).Draw(t, "tail")
+			if c.Arg == it.Arg {
+				c.Arg = it.Arg + 2
+			}
 		}
-		return c
-	})
+		c.Corr = corr
+	case "truncate":
+		if len(base) > 0 {
+			c.Corr, c.Cut = corr, rapid.IntRange(0, len(base)-1).Draw(t, "cut")
+		}
+	case "append":
+		c.Corr, c.Tail = corr, rapid.SampledFrom(tails).Draw(t, "tail")
+	}
+	return c
 }
 
 // ------------------------------------------------------------------------------- (c) encoder output
@@ -1009,16 +1012,19 @@ func genNode(t *rapid.T, depth, maxDepth int) *Node {
 	return m
 }
 
-func TestPropEncoderOutput(t *testing.T) {
-	encProp.Rapid(t, func(t *rapid.T) EncCase {
-		maxDepth := rapid.IntRange(1, 4).Draw(t, "maxDepth")
-		n := rapid.SampledFrom([]int{1, 1, 2, 3}).Draw(t, "nitems")
-		var c EncCase
-		for i := 0; i < n; i++ {
-			c.Items = append(c.Items, genNode(t, 1, maxDepth))
-		}
-		return c
-	})
+func TestPropEncoderOutput(t *testing.T) { encProp.Rapid(t, genPropEncoderOutput) }
+
+// TestConcEncoderOutput: batches of cases evaluated at the same time on separate goroutines (vh.Prop.Concurrent).
+func TestConcEncoderOutput(t *testing.T) { encProp.Concurrent(t, genPropEncoderOutput, 8, 3) }
+
+func genPropEncoderOutput(t *rapid.T) EncCase {
+	maxDepth := rapid.IntRange(1, 4).Draw(t, "maxDepth")
+	n := rapid.SampledFrom([]int{1, 1, 2, 3}).Draw(t, "nitems")
+	var c EncCase
+	for i := 0; i < n; i++ {
+		c.Items = append(c.Items, genNode(t, 1, maxDepth))
+	}
+	return c
 }
 
 // ------------------------------------------------------------------------------- (f) dense shape sweeps
